@@ -18,13 +18,17 @@ AttrForms == {"tok_ok", "rx_ok", "rx_cb_ok", "rx_greedy_allowed", "no_attr", "tw
               \* not implementable faithfully
               "rx_nullable", "rx_nullable_prio", "rx_nullable_alt_prio", "tok_empty", "tok_empty_prio", "rx_nullable_sub", "rx_only_look", "rx_lookstart", "rx_wordb_start",
               "rx_greedy", "rx_greedy_class", "rx_undef_sub", "rx_uni_wordb",
+              \* greedy dot inside a repeated / capturing group; patterns whose only match is the empty string
+              "rx_greedy_nested", "rx_greedy_capture", "rx_only_empty", "rx_only_empty_alt", "rx_only_empty_neg",
               \* not UTF-8 (implementable only with utf8 = false)
-              "rx_nonutf8", "tok_nonutf8",
+              "rx_nonutf8", "tok_nonutf8", "tok_b80_icase", "rx_b80", "tok_b7f80_icase",
               \* unsupported / malformed regex
               "rx_lookahead", "rx_backref", "rx_badsyntax",
               \* malformed attribute
               "dup_prio", "dup_cb", "dup_cb_named", "unknown_arg", "bad_lit_int", "bad_lit_ident", "prio_notint", "cb_bad",
-              "ignore_bad", "ignore_ascii", "empty_attr", "attr_no_parens", "greedy_notbool", "two_positional"}
+              "ignore_bad", "ignore_ascii", "empty_attr", "attr_no_parens", "greedy_notbool", "two_positional",
+              \* well-formed corner cases: a pattern that matches nothing, callbacks whose body starts with a group
+              "rx_never", "rx_cb_paren_tail", "rx_cb_brace_tail", "rx_cb_bracket_tail", "rx_cb_bracket_only"}
 
 EnumForms == {"plain", "extras", "error_ty", "error_cb", "skip_ok", "skip_group", "utf8_false", "utf8_true", "crate_path", "subpattern_ok",
               \* generic enums: lifetimes and type parameters
@@ -33,14 +37,17 @@ EnumForms == {"plain", "extras", "error_ty", "error_cb", "skip_ok", "skip_group"
               \* malformed / duplicated
               "dup_extras", "dup_error", "dup_utf8", "unknown_logos", "logos_no_parens", "bad_utf8_val", "skip_nullable", "skip_bad_lit",
               "skip_nonutf8", "skip_nonutf8_group", "skip_nullable_prio", "skip_greedy", "skip_undef_sub", "skip_lookstart",
-              "sub_dup", "sub_bad_name", "sub_undef_ref", "sub_nonutf8", "source_deprecated", "error_attr_variant", "const_generic", "dup_error_cb"}
+              "sub_dup", "sub_bad_name", "sub_undef_ref", "sub_nonutf8", "source_deprecated", "error_attr_variant", "const_generic", "dup_error_cb",
+              \* tokens after a `name "literal"` item
+              "skip_lit_tail", "skip_lit_tail_lit"}
 
 Seconds == {"none", "other_ok", "same_tok", "overlap_same_prio"}
 
 GoodShape(s)  == s \in {"unit", "field1"}
 GoodAttr(a, e) ==
-  \/ a \in {"tok_ok", "rx_ok", "rx_cb_ok", "rx_greedy_allowed", "no_attr", "two_attrs_ok"}
-  \/ (a \in {"rx_nonutf8", "tok_nonutf8"} /\ e = "utf8_false")
+  \/ a \in {"tok_ok", "rx_ok", "rx_cb_ok", "rx_greedy_allowed", "no_attr", "two_attrs_ok",
+            "rx_never", "rx_cb_paren_tail", "rx_cb_brace_tail", "rx_cb_bracket_tail", "rx_cb_bracket_only"}
+  \/ (a \in {"rx_nonutf8", "tok_nonutf8", "tok_b80_icase", "rx_b80", "tok_b7f80_icase"} /\ e = "utf8_false")
 GoodEnum(e)   == e \in {"plain", "extras", "error_ty", "error_cb", "skip_ok", "skip_group", "utf8_false", "utf8_true", "crate_path", "subpattern_ok",
                          "gen_lt", "gen_two_lt_attr", "gen_lt_none", "gen_type_ok", "gen_type_lt_order"}
 (* the second variant conflicts only with a first variant that matches "x" at priority 2 *)
